@@ -369,6 +369,10 @@ func ruleIndexResetOnEveryPath(c *Ctx, rule string) {
 	a := c.A
 	f := a.IndexBuilder
 	c.R.Rule(c.R.Property+"."+rule, 1, "the index builder never leaves an old index in place")
+	if f == nil {
+		c.R.Add(rule, "pkg:tree", "index-builder/exists", "-", false, "no function rebuilds the first-byte index of a node (the index field could not be identified): literal children cannot be found through an index that is kept current")
+		return
+	}
 	reset := func(in ssa.Instruction) bool {
 		if base, field, _, ok := fieldStore(in, a.NodeT); ok && field == a.FIndexes && base == "recv" {
 			return true
@@ -547,17 +551,67 @@ func ruleGroupOptionOrder(c *Ctx, rule string) {
 	gn := c.P.MustFunc("mux.(*Group).New")
 	newRouter := c.P.MustFunc("mux.NewRouter")
 	found := false
-	an.AllInstrs(gn, func(in ssa.Instruction) {
-		call, ok := calleeIs(in, newRouter)
-		if !ok {
-			return
+	// which operand is it: the group's stored options, or the options given to New (directly or handed to a helper)
+	role := func(t *an.Term) string {
+		if ap, ok := t.APOf(); ok {
+			if strings.HasSuffix(ap, ".options") {
+				return "group"
+			}
+			if strings.HasPrefix(ap, "p:") {
+				return "own"
+			}
 		}
-		found = true
-		t := c.O.Of(call.Args[len(call.Args)-1])
-		ops := an.FlattenConcat(t)
-		good := len(ops) == 2 && ops[0].String() == "recv.options" && ops[1].String() == "param:o"
-		c.R.Add(rule, c.fk(gn), "call:mux.NewRouter/options=group++own", c.pos(in), good, ifelse(good, "Concat(g.options, o)", "Group.New passes "+t.String()+" as options: the group-wide options override the ones given to New (or are lost)"))
-	})
+		switch t.Op {
+		case "param":
+			return "own"
+		case "const", "make":
+			return "empty"
+		}
+		return "?" + t.String()
+	}
+	for _, fn := range builderCluster(c, gn) {
+		if !strings.HasPrefix(an.FuncKey(fn), "mux.") {
+			continue
+		}
+		an.AllInstrs(fn, func(in ssa.Instruction) {
+			call, ok := calleeIs(in, newRouter)
+			if !ok {
+				return
+			}
+			found = true
+			t := c.O.Of(call.Args[len(call.Args)-1])
+			// every alternative of the list (a helper may return one side as it is when the other is empty) keeps
+			// the order group-before-own, and some alternative has both
+			alts := []*an.Term{t}
+			if t.Op == "phi" {
+				alts = t.Args
+			}
+			good, both := true, false
+			for _, alt := range alts {
+				last := ""
+				hasG, hasO := false, false
+				for _, op := range an.FlattenConcat(alt) {
+					switch r := role(op); r {
+					case "group":
+						if last == "own" {
+							good = false
+						}
+						hasG, last = true, r
+					case "own":
+						hasO, last = true, r
+					case "empty":
+					default:
+						good = false
+					}
+				}
+				if hasG && hasO {
+					both = true
+				}
+			}
+			good = good && both
+			c.R.Add(rule, c.fk(gn), "call:mux.NewRouter/options=group++own", c.pos(in), good, ifelse(good, "the group's options come first, the options given to New after them", "Group.New passes "+t.String()+" as options: the group-wide options override the ones given to New (or are lost)"))
+		})
+	}
 	if !found {
 		c.R.Add(rule, c.fk(gn), "call:mux.NewRouter/options=group++own", c.P.Pos(gn.Pos()), false, "Group.New no longer builds the router with NewRouter")
 	}
